@@ -10,7 +10,11 @@ run_cmd do
   let env ← getEnv
   let mut names : Array Name := #[]
   for (n, ci) in env.constants.toList do
-    if (`Feems.Props).isPrefixOf n && !n.isInternal then
+    let last := n.components.getLast!.toString
+    let auto := last == "injEq" || last == "sizeOf_spec" || last.startsWith "eq_" || last.startsWith "match_"
+      || last.startsWith "proof_" || last == "inj" || last == "noConfusion" || last.startsWith "_"
+      || last == "ext" || last == "ext_iff" || last == "eq_def"
+    if (`Feems.Props).isPrefixOf n && !n.isInternal && !auto then
       match ci with
       | .thmInfo _ => names := names.push n
       | _ => pure ()
